@@ -49,6 +49,14 @@ THEOREMS = ["SigpyVerif.C03." + t for t in [
 
 
 def translate(ctx):
+    # the source normaliser in front of the translators (harness/translate/norm_c03.py) is checked on every run: spellings
+    # that are equivalent must meet, spellings that differ in meaning must stay apart (fail-closed)
+    try:
+        from harness.translate import norm_c03
+        bad = norm_c03.selftest()
+    except Exception as e:  # noqa
+        bad = ["normaliser self-test raised %r" % (e,)]
+    ctx.oblige("translate:C03.normaliser-selftest", "translate", not bad, "; ".join(bad[:3]) if bad else "equivalent spellings meet, different ones stay apart")
     G.regenerate(ctx, ["StackParams", "LinopApply"])
 
 STACKS = ("hstack", "vstack", "diag")
